@@ -1,13 +1,24 @@
 /-
-Executable Spec of C08 over what consumers and the caller of `Provider.Run` observe in one cell
-(kind, preload, limit, passes, n entries, consumers, cancel cap):
+Executable Spec of C08 over what consumers, the caller of `Provider.Run` and the caller of `Engine.Run` observe in
+one cell (kind, preload, limit, passes, n entries, consumers, mode …).  `M = min⁺(limit, passes·n)` (bounds that are
+0 are absent; no bound at all = unbounded).
 
-  * exactly `min⁺(limit, passes·n)` ammo are acquired (bounds that are 0 are absent); with no bound every finite
-    prefix is delivered: the cell is cancelled after `cap` acquisitions and exactly `cap` were acquired by then;
-  * `Provider.Run` returns nil (a cancelled run may also return context.Canceled, which the engine treats as a
-    clean end), and it returns at all (`noreturn` = still running when the watchdog fired);
+mode drain (consumers always ready; the context is cancelled by the consumer that makes the `cap`-th acquisition):
+  * exactly `min(cap, M)` ammo are acquired — exactly `M` when nobody cancels, and with no bound every finite prefix:
+    exactly `cap`; they are the entries of the file in cyclic order (`seq`);
+  * `Provider.Run` returns (`noreturn` = still running when the watchdog fired) nil — context.Canceled only when the
+    harness did cancel (the engine treats that as a clean end);
   * every consumer then sees `ok=false` (`closed`); `blocked`/`spinning` = consumers still inside Acquire;
   * no spin: the provider touches the ammo file O(delivered + n) times (`ops` = Read+Seek calls).
+mode ext (as drain, and the context is cancelled from inside the `at`-th file operation): when the cancel fired the
+  count is not determined, but never more than `min(cap, M)`, still in order, `Run` returns nil or Canceled, the
+  sink is closed; `nil` from a provider that answers a cancel with Canceled means that the bound was reached.
+mode stall (consumers make exactly `cap` Acquire calls and then stop; then the context is cancelled unless `Run`
+  has returned by itself): exactly `min(cap, M)` acquired; `Run` returns; the sink is closed and holds at most the
+  channel capacity, never more than `M` in total; a provider whose remaining ammo fit into the channel returns
+  by itself (bound reached ⇒ returns promptly) having sent exactly `M`.
+mode engine (real core/engine, `inst` instances, shared `once(shots)` schedule, `shots = 0` = unlimited):
+  `Engine.Run` returns nil, exactly `min⁺(M, shots)` shots were made, `Engine.Wait` returns.
 -/
 namespace Pandora.Spec.C08
 
@@ -16,7 +27,7 @@ inductive RunClass where
   deriving DecidableEq, Repr, Inhabited
 
 inductive EndClass where
-  | closed | blocked | spinning
+  | closed | blocked | spinning | open_
   deriving DecidableEq, Repr, Inhabited
 
 def RunClass.name : RunClass → String
@@ -24,13 +35,13 @@ def RunClass.name : RunClass → String
   | .noammo => "noammo" | .other => "other" | .noreturn => "noreturn"
 
 def EndClass.name : EndClass → String
-  | .closed => "closed" | .blocked => "blocked" | .spinning => "spinning"
+  | .closed => "closed" | .blocked => "blocked" | .spinning => "spinning" | .open_ => "open"
 
 structure Cell where
   limit : Nat
   passes : Nat
   n : Nat
-  cap : Nat      -- the context is cancelled when `cap` ammo have been acquired
+  cap : Nat      -- the context is cancelled when `cap` ammo have been acquired (0 = never)
   deriving Repr
 
 structure Obs where
@@ -39,6 +50,7 @@ structure Obs where
   run : RunClass
   end_ : EndClass
   ops : Nat
+  seqOk : Bool := true   -- the acquired ammo are the file's entries in cyclic order
   deriving Repr
 
 /-- `none` = unbounded -/
@@ -51,12 +63,18 @@ def expected (limit passes n : Nat) : Option Nat :=
 
 def opsBound (delivered n : Nat) : Nat := 6 * (delivered + n + 1) + 8
 
-def want (c : Cell) : Nat := match expected c.limit c.passes c.n with | some m => m | none => c.cap
+/-- what a drain cell has to deliver: `min(cap, M)`, `cap = 0` = nobody cancels (such a cell must be bounded) -/
+def want (c : Cell) : Nat :=
+  match expected c.limit c.passes c.n with
+  | some m => if c.cap = 0 then m else min c.cap m
+  | none => c.cap
 def bounded (c : Cell) : Bool := (expected c.limit c.passes c.n).isSome
+/-- the harness cancels iff the cap is reached -/
+def wantCut (c : Cell) : Bool := decide (0 < c.cap ∧ c.cap ≤ want c)
 
-/-! the clauses of the property -/
-/-- exactly the expected number was acquired; a bounded cell never reaches the cap, an unbounded one does -/
-def countOk (c : Cell) (o : Obs) : Bool := o.delivered == want c && o.cut == !bounded c
+/-! the clauses of the property (mode drain) -/
+/-- exactly the expected number was acquired, in file order -/
+def countOk (c : Cell) (o : Obs) : Bool := o.delivered == want c && o.cut == wantCut c
 /-- `Run` returns -/
 def returnsOk (o : Obs) : Bool := o.run != .noreturn
 /-- … without error (context.Canceled only when the harness did cancel) -/
@@ -66,20 +84,122 @@ def endOk (o : Obs) : Bool := o.end_ == .closed
 /-- no spin -/
 def spinOk (c : Cell) (o : Obs) : Bool := !bounded c || decide (o.ops ≤ opsBound o.delivered c.n)
 
-def holds (c : Cell) (o : Obs) : Bool := countOk c o && returnsOk o && runOk o && endOk o && spinOk c o
+def holds (c : Cell) (o : Obs) : Bool :=
+  countOk c o && o.seqOk && returnsOk o && runOk o && endOk o && spinOk c o
+
+def runErrMsg (o : Obs) : String :=
+  s!"fail:run-error:Run returned {o.run.name}" ++ (if !endOk o then ", sink not closed" else "")
 
 /-- verdict of the line protocol, built from the same clauses -/
 def judge (c : Cell) (o : Obs) : String :=
   if !countOk c o then
-    s!"fail:count:delivered {o.delivered}{if o.cut then "+ (cut at cap)" else ""}, expected {want c}{if bounded c then "" else " (cap, then cancel)"}"
+    s!"fail:count:delivered {o.delivered}{if o.cut then "+ (cut at cap)" else ""}, expected {want c}{if wantCut c then " (cap, then cancel)" else ""}"
+  else if !o.seqOk then "fail:order:the acquired ammo are not the entries of the file in cyclic order"
   else if !returnsOk o then
     (if o.end_ == .spinning then "fail:spin:Run never returns, ammo file read in a loop" else "fail:hang:Run never returns")
-  else if !runOk o then
-    s!"fail:run-error:Run returned {o.run.name}" ++ (if !endOk o then ", sink not closed" else "")
+  else if !runOk o then runErrMsg o
   else if !endOk o then
     "fail:sink-open:Run returned but consumers stay blocked in Acquire (sink never closed)"
   else if !spinOk c o then
     s!"fail:spin:{o.ops} file operations for {o.delivered} ammo of a {c.n}-entry file"
+  else "ok"
+
+/-! ## mode ext -/
+
+/-- `answersCanceled` = the provider answers a cancel with context.Canceled (http, scenario); the others return nil -/
+def extHolds (c : Cell) (answersCanceled : Bool) (fired : Bool) (o : Obs) : Bool :=
+  if !fired then holds c o
+  else
+    decide (o.delivered ≤ want c) && o.cut == decide (0 < c.cap ∧ c.cap ≤ o.delivered) && o.seqOk &&
+    returnsOk o && (o.run == .nil || o.run == .canceled) && endOk o &&
+    -- nil from a provider that answers a cancel with Canceled: only because the bound was reached
+    (!(answersCanceled && o.run == .nil) || expected c.limit c.passes c.n == some o.delivered || (o.cut && bounded c))
+
+def extJudge (c : Cell) (answersCanceled : Bool) (fired : Bool) (o : Obs) : String :=
+  if !fired then judge c o
+  else if !decide (o.delivered ≤ want c) then s!"fail:count:delivered {o.delivered} after a cancel, at most {want c} expected"
+  else if o.cut != decide (0 < c.cap ∧ c.cap ≤ o.delivered) then "fail:driver:cut flag inconsistent"
+  else if !o.seqOk then "fail:order:the acquired ammo are not the entries of the file in cyclic order"
+  else if !returnsOk o then
+    (if o.end_ == .spinning then "fail:spin:Run never returns after the cancel, ammo file read in a loop" else "fail:hang:Run never returns after the cancel")
+  else if !(o.run == .nil || o.run == .canceled) then runErrMsg o
+  else if !endOk o then "fail:sink-open:Run returned but consumers stay blocked in Acquire (sink never closed)"
+  else if !extHolds c answersCanceled fired o then
+    s!"fail:count:Run returned nil after a cancel with {o.delivered} delivered, bound not reached"
+  else "ok"
+
+/-! ## mode stall -/
+
+structure StallObs where
+  delivered : Nat
+  cut : Bool        -- the harness had to cancel (Run had not returned by itself)
+  ret : Bool        -- Run returned
+  run : RunClass
+  left : Nat        -- drained from the sink after Run returned
+  end_ : EndClass
+  seqOk : Bool
+  deriving Repr
+
+/-- `cap` = number of Acquire calls the consumers make -/
+def stallWant (c : Cell) : Nat :=
+  match expected c.limit c.passes c.n with
+  | some m => min c.cap m
+  | none => c.cap
+
+/-- the provider can send everything it has to deliver although consumers take only `cap` -/
+def selfEnding (c : Cell) (chanCap : Nat) : Bool :=
+  match expected c.limit c.passes c.n with
+  | some m => decide (m ≤ c.cap + chanCap)
+  | none => false
+
+def stallHolds (c : Cell) (chanCap : Nat) (o : StallObs) : Bool :=
+  o.delivered == stallWant c && o.seqOk && o.ret && o.end_ == .closed && decide (o.left ≤ chanCap) &&
+  (match expected c.limit c.passes c.n with
+   | some m => decide (o.delivered + o.left ≤ m)
+   | none => true) &&
+  (if o.cut then (o.run == .nil || o.run == .canceled) && !selfEnding c chanCap
+   else o.run == .nil && expected c.limit c.passes c.n == some (o.delivered + o.left))
+
+def stallJudge (c : Cell) (chanCap : Nat) (o : StallObs) : String :=
+  if o.delivered != stallWant c then s!"fail:count:delivered {o.delivered} to {c.cap} Acquire calls, expected {stallWant c}"
+  else if !o.seqOk then "fail:order:the acquired ammo are not the entries of the file in cyclic order"
+  else if o.end_ == .blocked then "fail:sink-open:consumers stay blocked in Acquire although the provider has nothing more to deliver"
+  else if !o.ret then "fail:hang:Run does not return after the cancel (nobody receives)"
+  else if o.end_ != .closed then "fail:sink-open:Run returned but the sink is not closed"
+  else if !decide (o.left ≤ chanCap) then s!"fail:count:{o.left} ammo left in the sink, channel capacity {chanCap}"
+  else if !(match expected c.limit c.passes c.n with | some m => decide (o.delivered + o.left ≤ m) | none => true) then
+    s!"fail:count:{o.delivered} delivered + {o.left} left in the sink exceed the bound"
+  else if o.cut && !(o.run == .nil || o.run == .canceled) then s!"fail:run-error:Run returned {o.run.name}"
+  else if o.cut && selfEnding c chanCap then "fail:linger:bound reached and every ammo sent, but Run returns only when cancelled"
+  else if !o.cut && o.run != .nil then s!"fail:run-error:Run returned {o.run.name}"
+  else if !stallHolds c chanCap o then s!"fail:count:Run ended by itself after sending {o.delivered + o.left}"
+  else "ok"
+
+/-! ## mode engine -/
+
+structure EngObs where
+  shots : Nat
+  errNil : Bool
+  errText : String
+  wait : Bool
+  seqOk : Bool
+  deriving Repr
+
+/-- `shots = 0` = unlimited schedule -/
+def engWant (c : Cell) (shots : Nat) : Option Nat :=
+  match expected c.limit c.passes c.n with
+  | some m => some (if shots = 0 then m else min m shots)
+  | none => if shots = 0 then none else some shots
+
+def engHolds (c : Cell) (shots : Nat) (o : EngObs) : Bool :=
+  engWant c shots == some o.shots && o.errNil && o.wait && o.seqOk
+
+def engJudge (c : Cell) (shots : Nat) (o : EngObs) : String :=
+  if o.errText == "hang" then "fail:hang:Engine.Run does not return"
+  else if !o.errNil then s!"fail:engine-error:Engine.Run returned {o.errText}"
+  else if engWant c shots != some o.shots then s!"fail:count:{o.shots} shots, expected {match engWant c shots with | some w => toString w | none => "?"}"
+  else if !o.seqOk then "fail:order:the shot ammo are not the entries of the file in cyclic order"
+  else if !o.wait then "fail:hang:Engine.Wait does not return (provider still running)"
   else "ok"
 
 end Pandora.Spec.C08
